@@ -68,6 +68,8 @@ struct Spec
   std::string name;
   int64_t a, b;     // threshold constants in lattice units: target/min/max = a*u, epsilon = b*u ; reliability: low = a*u, high = b*u
   std::vector<OpSpec> ops;
+  bool relOverride = false;   // reliability thresholds that are not 64ths (decimal fractions, per cent, any reals, the extremes)
+  double relLow = 0, relHigh = 0;
 };
 
 template<typename T> struct Num;
@@ -205,7 +207,8 @@ void runThreshold(vf::Ctx & c, const Spec & sp, Tally & t)
 
 void runReliability(vf::Ctx & c, const Spec & sp, Tally & t)
 {
-  const double low = static_cast<double>(sp.a) / 64, high = static_cast<double>(sp.b) / 64;
+  const double low = sp.relOverride ? sp.relLow : static_cast<double>(sp.a) / 64;
+  const double high = sp.relOverride ? sp.relHigh : static_cast<double>(sp.b) / 64;
   CheckupReliability chk(sp.name, low, high);
   int idx = 0;
   for (const OpSpec & op : sp.ops) {
@@ -282,6 +285,25 @@ void thresholds(vf::Ctx & c)
   // changes the precision of the stream it is given); the check-up's info value is the value printed on a fresh stream
   const bool positionReportedFirst = c.s.flag("a_wgs84_position_was_reported_first_in_this_thread", 1, 4);
   if (positionReportedFirst) {c.label("other-values-reported-first-in-the-same-thread");}
+  if (sp.type == RELIABILITY) {
+    // the reliability verdict is made of plain comparisons, so every pair of finite thresholds has an exact expectation:
+    // decimal fractions (0.03 / 0.29), per cent (3 / 29), any reals, and the two ends of the double range
+    const size_t tc = c.s.pick("reliability_threshold_class", {3, 2, 1, 1, 1});
+    if (tc != 0) {
+      sp.relOverride = true;
+      if (tc == 1 || tc == 2) {
+        const int64_t lo = c.s.i("low_100th", 0, 100), hi = c.s.i("high_100th", lo, 100);
+        sp.relLow = tc == 1 ? static_cast<double>(lo) / 100 : static_cast<double>(lo);
+        sp.relHigh = tc == 1 ? static_cast<double>(hi) / 100 : static_cast<double>(hi);
+      } else if (tc == 3) {
+        const double x = c.s.r("low_real", -1e6, 1e6), y = c.s.r("high_real", -1e6, 1e6);
+        sp.relLow = std::min(x, y); sp.relHigh = std::max(x, y);
+      } else {
+        sp.relLow = -std::numeric_limits<double>::max(); sp.relHigh = std::numeric_limits<double>::max();
+      }
+      c.label("reliability-thresholds-not-dyadic");
+    }
+  }
   c.commit();
 
   if (positionReportedFirst) {
